@@ -1,11 +1,68 @@
 """C15 -- decided by the shared proxy pipeline (checks/proxylib.py): Proxy.tla/Authz.tla model checking, TLC-generated
 scenarios replayed on the real ProxyServer, and TLC trace validation of every observed request against
-spec/trace/ProxyTrace.tla with the C15 invariants."""
+spec/trace/ProxyTrace.tla with the C15 invariants.  Uploads on kept-alive connections of some age (the body still
+arriving when the connection has been open for half a minute) are judged one by one by spec/trace/LimitTrace.tla."""
 from checks import proxylib
+from vlib import rig, util
+from vlib.ctx import validate_trace
+
+LIMIT = 100 * 1024
+
+
+def aged_connections(c, prop="C15"):
+    """Second-order state: a connection that has been kept alive and served earlier requests; the upload's head arrives when
+    the connection is 27.5 s old and its body 4 s later.  The limit applies to it like to any other request."""
+    branches, meta = [], {}
+    plan = [("over-chunked", "168.63.129.16", 80, LIMIT + 1, "chunked"), ("exact-cl", "169.254.169.254", 80, LIMIT, "cl"),
+            ("over-cl-late", "168.63.129.16", 32526, LIMIT + 4096, "chunked")]
+    if c.tier == "thorough":
+        plan += [("exact-chunked", "10.9.8.7", 8080, LIMIT, "chunked")]
+    for i, (nm, dip, dport, n, framing) in enumerate(plan):
+        conn, rid = "age%d" % i, "age%d_up" % i
+        warm = [{"op": "request", "conn": conn, "id": "age%d_w%d" % (i, k), "method": "GET", "target": "/machine?comp=warm&k=%d" % k,
+                 "headers": [["Host", "h"]]} for k in range(2)]
+        branches.append([{"op": "connect", "conn": conn, "attr": {"uid": 0, "admin": 1, "dip": dip, "dport": dport}, "timeout_ms": 30000},
+                         {"op": "mark", "tag": "open:" + conn}] + warm +
+                        [{"op": "sleep", "ms": 27500},
+                         {"op": "request", "conn": conn, "id": rid, "method": "POST", "target": "/machine?comp=upload&n=%d" % i,
+                          "headers": [["Host", "h"]], "body": {"seed": 500 + i, "len": n}, "framing": framing, "body_delay_ms": 4000,
+                          "resp": {"status": 200, "headers": [["X-Host", rid]], "body": {"seed": 1, "len": 5}}},
+                         {"op": "mark", "tag": "done:" + conn}, {"op": "close", "conn": conn}])
+        meta[rid] = {"name": nm, "len": n, "framing": framing, "seed": 500 + i, "host": {("168.63.129.16", 80): "ws", ("169.254.169.254", 80): "imds",
+                     ("168.63.129.16", 32526): "ga"}.get((dip, dport), "other"), "conn": conn}
+    ev, d, _ = rig.run_rig({"steps": [{"op": "parallel", "branches": branches}], "drain_ms": 400}, "aged_%s" % prop.lower(), timeout=180)
+    resp = {e["id"]: e for e in ev if e["e"] == "Response"}
+    rerr = {e["id"]: e for e in ev if e["e"] == "ResponseError"}
+    recv = {e["id"]: e for e in ev if e["e"] == "HostRecv" and e.get("id")}
+    stray = {}
+    for e in ev:
+        if e["e"] == "HostClose":
+            stray[e["host"]] = stray.get(e["host"], 0) + e.get("bytesTotal", 0) - e.get("bytesParsed", 0)
+    for k in range(2):
+        for i in range(len(plan)):
+            if "age%d_w%d" % (i, k) not in resp:
+                raise util.ToolError("aged-connection scenario: warm-up request age%d_w%d was not answered" % (i, k))
+    rows = []
+    for rid, m in meta.items():
+        h = recv.get(rid)
+        r = resp.get(rid)
+        rows.append({"e": "upload", "id": rid, "name": m["name"], "len": m["len"], "limit": LIMIT, "framing": m["framing"],
+                     "answered": r is not None, "status": (r or {}).get("status", 0), "relayed": h is not None,
+                     "hostBytes": stray.get(m["host"], 0) if h is None else h["bodyLen"],
+                     "bodyIntact": bool(h) and h["bodyLen"] == m["len"] and h["bodySha"] == util.sha(rig.gen_body(m["seed"], m["len"])),
+                     "age": 31, "clientError": (rerr.get(rid) or {}).get("kind", "")})
+    c.extra["uploads_on_aged_connections"] = [{k: r[k] for k in ("name", "len", "status", "relayed")} for r in rows]
+    ok, why, res = validate_trace(c, "LimitTrace", "LimitTrace.cfg", rows, "limit_%s" % prop, count=1, timeout=300)
+    if not ok:
+        bad = next((r for r in rows if (r["len"] > LIMIT and not (r["answered"] and 400 <= r["status"] <= 499 and not r["relayed"] and r["hostBytes"] == 0))
+                    or (r["len"] <= LIMIT and not (r["relayed"] and r["bodyIntact"]))), rows[0])
+        c.violation("an upload on a connection that had been kept alive for half a minute is not treated by its size: %s" % bad,
+                    {"kind": "limit-not-applied-on-aged-connection", "broken": why.replace("invariant ", ""), "which": bad["name"]}, {"rows": rows})
 
 
 def run(c):
     proxylib.decide(c, "C15", relevant=lambda row: row['bodyLen'] > 0)
+    aged_connections(c)
 
 
 def replay(c, path):
